@@ -69,6 +69,29 @@ func loadProps() []propInfo {
 	return out
 }
 
+// claimedProps: the properties with a check in MANIFEST.json (all non-N/A ones if the manifest cannot be read).
+func claimedProps() []string {
+	var m struct {
+		Checks []struct {
+			PropertyID string `json:"property_id"`
+		} `json:"checks"`
+	}
+	var ids []string
+	if data, err := os.ReadFile(filepath.Join(verifDir, "MANIFEST.json")); err == nil && json.Unmarshal(data, &m) == nil {
+		for _, c := range m.Checks {
+			ids = append(ids, c.PropertyID)
+		}
+	}
+	if len(ids) == 0 {
+		for _, p := range loadProps() {
+			if !notApplicable[p.ID] {
+				ids = append(ids, p.ID)
+			}
+		}
+	}
+	return ids
+}
+
 // notApplicable lists the properties for which no rule is claimed.
 var notApplicable = map[string]bool{"C08": true, "C12": true, "C14": true}
 
@@ -104,12 +127,7 @@ func main() {
 		}
 		os.Exit(runCheck(*repo, *tier, []string{args[0]}, !*noEvidence, *verbose))
 	case "all":
-		var ids []string
-		for _, p := range loadProps() {
-			if !notApplicable[p.ID] {
-				ids = append(ids, p.ID)
-			}
-		}
+		ids := claimedProps()
 		os.Exit(runCheck(*repo, *tier, ids, !*noEvidence, *verbose))
 	case "replay":
 		if len(args) != 1 {
